@@ -110,13 +110,13 @@ def run(ctx):
         e2 = rebuild(small)
         return e2, hist.run_histories(ctx, [e2])[0]
 
-    for i in sm[:2]:
+    for i in sm[:1]:
         e2, o2 = shrink(i, "SM")
         out["spec_violations"].append({
             "events": [list(x) for x in e2], "sql": [hist.sql_stmt(x[1]) if x[0] == "stmt" else x[0] for x in e2 if x[0] != "dump"],
             "observed_last_dump": [x for x in (o2 or []) if x["t"] == "dump"][-1:] ,
             "what": "a dumped page graph violates the shape invariants (Spec/DumpCheck.v dump_ok = false)"})
-    for i in mm[:2]:
+    for i in mm[:1]:
         e2, o2 = shrink(i, "MM")
         out["model_mismatches"].append({"events": [list(x) for x in e2],
                                         "sql": [hist.sql_stmt(x[1]) if x[0] == "stmt" else x[0] for x in e2 if x[0] != "dump"]})
